@@ -103,8 +103,8 @@ def build_world(desc):
         W["xz_c"] = xr.DataArray(gen.quarter_data(desc["seed"] + 4, (5, N)), dims=["zc", "xc"], name="xz")
         W["xz_o"] = xr.DataArray(gen.quarter_data(desc["seed"] + 5, (6, N)), dims=["zo", "xg"], name="xzo")
         W["axes_xz"] = ["X", "Z"]
-        W["u"] = xr.DataArray(gen.quarter_data(desc["seed"] + 2, (2, M, N)), dims=["time", "yc", "xg"], name="u")
-        W["v"] = xr.DataArray(gen.quarter_data(desc["seed"] + 3, (2, M, N)), dims=["time", "yg", "xc"], name="v")
+        W["u"] = xr.DataArray(gen.quarter_data(desc["seed"] + 2, (2, M, N)), dims=["time", "yc", "xg"], name="u", attrs={"long_name": "zonal velocity", "units": "m s-1"})
+        W["v"] = xr.DataArray(gen.quarter_data(desc["seed"] + 3, (2, M, N)), dims=["time", "yg", "xc"], name="v", attrs={"long_name": "meridional velocity"})
         W["VD"] = {"X": W["u"]}
         W["OC"] = {"Y": W["v"]}
         W["B"] = {"X": "extend", "Y": "fill"}
@@ -146,9 +146,11 @@ def build_world(desc):
     W["ctor_boundary"] = {"X": desc["rule"], "Y": "fill"}
     W["ctor_fill"] = {"X": 2.0, "Y": -3.0}
     W["ds"] = ds
-    W["da"] = xr.DataArray(gen.unique_data((2, nf, N, N), 1), dims=["time", "face", "y", "x"], name="tracer")
-    W["u"] = xr.DataArray(gen.unique_data((2, nf, N, N), 1), dims=["time", "face", "y", "xl"], name="u")
-    W["v"] = xr.DataArray(gen.unique_data((2, nf, N, N), 1001), dims=["time", "face", "yl", "x"], name="v")
+    # every array carries attributes of its own (as arrays read from files do): they are part of what a call must leave alone
+    W["da"] = xr.DataArray(gen.unique_data((2, nf, N, N), 1), dims=["time", "face", "y", "x"], name="tracer", attrs={"long_name": "tracer", "units": "K"})
+    W["u"] = xr.DataArray(gen.unique_data((2, nf, N, N), 1), dims=["time", "face", "y", "xl"], name="u", attrs={"long_name": "zonal velocity", "units": "m s-1"})
+    W["v"] = xr.DataArray(gen.unique_data((2, nf, N, N), 1001), dims=["time", "face", "yl", "x"], name="v",
+                          attrs={"long_name": "meridional velocity", "standard_name": "northward_sea_water_velocity"})
     W["VD"] = {"X": W["u"]}
     W["VDy"] = {"Y": W["v"]}
     W["OC"] = {"Y": W["v"]}
@@ -279,7 +281,7 @@ def outcome(f):
 
     def dg(r):
         if isinstance(r, xr.DataArray):
-            return ("DA", tuple(r.dims), r.name, tuple(sorted(map(str, r.coords))), snapshot._h(r.values))
+            return ("DA", tuple(r.dims), r.name, tuple(sorted(map(str, r.coords))), snapshot._h(r.values), snapshot._attrs(r.attrs))
         if isinstance(r, dict):
             return tuple((k, dg(v)) for k, v in r.items())
         if isinstance(r, (tuple, list)):
